@@ -12,12 +12,15 @@
 EXTENDS Streams, Json, Integers
 
 Trace == ndJsonDeserialize("trace.ndjson")
+AllConds == {"ReadersNonNegative", "WriterExcludes", "LockCoversStreams", "NoReapWhileOpen", "StreamsSeeOwnContent",
+             "ReleasedOnTrace", "CountMatches", "Quiescent", "NothingStuck"}
 TStreamers == 1..40
 VARIABLES l,       \* next line
           quiet,   \* the harness declared quiescence (all consumers done, timers expired, lock seen free)
           obs,     \* reader count reported by the last lock event
-          bad      \* {<<line, condition>>}: conditions that became false, with the line of the event
-tvars == <<allvars, l, quiet, obs, bad>>
+          bad,     \* {<<line, condition>>}: conditions that became false, with the line of the event
+          okc      \* the conditions that hold in the current state
+tvars == <<allvars, l, quiet, obs, bad, okc>>
 Ev == Trace[l]
 Is(e) == l <= Len(Trace) /\ Trace[l].ev = e
 Step == l' = l + 1
@@ -25,7 +28,7 @@ Max2(a, b) == IF a > b THEN a ELSE b
 model == <<cx, snaps, tmp, nsink, gen, sig, rp, rslept, xp, nx>>      \* not observable through the hooks
 lockRest == <<casHeld, wt, cur, subs, nsub>>
 
-TInit == SInit /\ l = 1 /\ quiet = FALSE /\ obs = 0 /\ bad = {} /\ TLCSet(1, 0) /\ TLCSet(2, {})
+TInit == SInit /\ l = 1 /\ quiet = FALSE /\ obs = 0 /\ bad = {} /\ okc = AllConds /\ TLCSet(1, 0) /\ TLCSet(2, {})
 
 TReset == /\ Is("reset") /\ Step
           /\ rd' = [p \in Proc |-> 0] /\ wr' = {} /\ UNCHANGED lockRest
@@ -87,8 +90,7 @@ ReleasedOnTrace == \A s \in Streamer : ls[s].rel <= 1 /\ ls[s].ncl <= 1 /\ (ls[s
 Quiescent     == quiet => (NReaders = 0 /\ \A s \in Streamer : ls[s].st = "open" => (ls[s].closed /\ ls[s].rel = 1))
 NothingStuck  == "stuck" \notin flags
 
-Conds == {"ReadersNonNegative", "WriterExcludes", "LockCoversStreams", "NoReapWhileOpen", "StreamsSeeOwnContent",
-          "ReleasedOnTrace", "CountMatches", "Quiescent", "NothingStuck"}
+Conds == AllConds
 Holds(n) == CASE n = "ReadersNonNegative" -> ReadersNonNegative
               [] n = "WriterExcludes" -> WriterExcludes
               [] n = "LockCoversStreams" -> LockCoversStreams
@@ -99,7 +101,8 @@ Holds(n) == CASE n = "ReadersNonNegative" -> ReadersNonNegative
               [] n = "Quiescent" -> Quiescent
               [] n = "NothingStuck" -> NothingStuck
 (* every condition is evaluated in the state after the event; it is recorded when it turns false *)
-Record == bad' = bad \cup {<<l, n>> : n \in {c \in Conds : Holds(c) /\ ~Holds(c)'}}
+Record == /\ okc' = {c \in Conds : Holds(c)'}
+          /\ bad' = bad \cup {<<l, n>> : n \in okc \ okc'}
 
 TSpec == TInit /\ [][TNext /\ Record]_tvars
 
